@@ -1,2 +1,86 @@
-(** C04 — statements only; see Proofs/. *)
-From RRSS Require Import Base.Outcome.
+(** C04 — Control flow follows the program text: branches, loops, break/continue.
+    Statements only; proofs in Proofs/InterpLaws.v and Proofs/InterpInv.v. *)
+From Coq Require Import List ZArith NArith Bool.
+From RRSS Require Import Base.Outcome Base.Chars Base.F64 Exec.Val Exec.Ops Front.Ast Exec.Env Exec.Interp.
+From RRSS Require Import Proofs.InterpInv Proofs.InterpLaws.
+Import ListNotations.
+
+(** an if evaluates its condition once and runs exactly one branch, chosen by truthiness *)
+Theorem C04_if_clause :
+  forall prof f c th el xs e,
+  exec_stmt prof (S f) (SIf c th el) xs e =
+  after_tick e (fun e =>
+    let+ (cv, e1) := produce_expr prof f c e in
+    let e2 := push_scope e1 in
+    let+ (xs', e3) :=
+      if is_truthy cv then exec_block prof f th xs e2
+      else match el with Some b => exec_block prof f b xs e2 | None => XOk xs e2 end in
+    let+ (e4, _) := lift_env (pop_scope prof e3) e3 in
+    XOk xs' e4).
+Proof. exact if_clause. Qed.
+
+(** while/until re-evaluate their condition before every iteration and run the body as long as it
+    holds (fails to hold); break leaves and continue restarts exactly this loop — the flag set by a
+    break/continue at any depth of nested ifs travels up through [exec_stmts] (next theorem) and is
+    reset here and nowhere else; a return leaves the loop with the flag still set *)
+Theorem C04_loop_clause :
+  forall prof f invert c b xs e,
+  exec_loop prof (S f) invert c b xs e =
+  after_tick e (fun e =>
+    let+ (cv, e1) := produce_expr prof f c e in
+    if xorb invert (is_truthy cv) then
+      let+ (xs', e3) := exec_block prof f b xs (push_scope e1) in
+      let+ (e4, _) := lift_env (pop_scope prof e3) e3 in
+      match xflag xs' with
+      | Normal => exec_loop prof f invert c b xs' e4
+      | Continuing => exec_loop prof f invert c b (mkX Normal (xret xs')) e4
+      | Breaking => XOk (mkX Normal (xret xs')) e4
+      | Returning => XOk xs' e4
+      end
+    else XOk xs e1).
+Proof. exact loop_clause. Qed.
+
+Theorem C04_while_until_clause :
+  forall prof f c b xs e,
+  exec_stmt prof (S f) (SWhile c b) xs e = after_tick e (exec_loop prof f false c b xs) /\
+  exec_stmt prof (S f) (SUntil c b) xs e = after_tick e (exec_loop prof f true c b xs).
+Proof. exact while_until_clause. Qed.
+
+(** statements run in order; once a break/continue/return has set the flag the rest of the block is skipped *)
+Theorem C04_stmts_clause :
+  forall prof f s t xs e,
+  exec_stmts prof (S f) (s :: t) xs e =
+  (let+ (xs', e1) := exec_stmt prof f s xs e in
+   if skip_rest (xflag xs') then XOk xs' e1 else exec_stmts prof f t xs' e1).
+Proof. exact stmts_clause. Qed.
+
+Theorem C04_break_continue_clause :
+  forall prof f r xs e, xflag xs = Normal ->
+  exec_stmt prof (S f) (SBreak r) xs e = after_tick e (fun e => XOk (mkX Breaking (xret xs)) e) /\
+  exec_stmt prof (S f) (SContinue r) xs e = after_tick e (fun e => XOk (mkX Continuing (xret xs)) e).
+Proof. exact break_continue_clause. Qed.
+
+(** an error stops execution at that statement ... *)
+Theorem C04_error_stops_block :
+  forall prof f s t xs e x e',
+  exec_stmt prof f s xs e = XErr x e' -> exec_stmts prof (S f) (s :: t) xs e = XErr x e'.
+Proof. exact error_stops_block. Qed.
+
+(** ... with everything printed before it preserved (and never a crash) *)
+Theorem C04_output_preserved_stmt :
+  forall prof fuel s xs e, wf e -> prex xs ->
+  match exec_stmt prof fuel s xs e with
+  | XOk _ e' | XErr _ e' => prefix_of (outp e) (outp e')
+  | _ => True
+  end.
+Proof. exact output_preserved_stmt. Qed.
+
+Theorem C04_output_preserved_program :
+  forall prof fuel p c,
+  match exec_program prof fuel p c with
+  | XOk _ e' | XErr _ e' => prefix_of (out_bytes c) (outp e')
+  | _ => True
+  end.
+Proof. exact output_preserved_program. Qed.
+
+Print Assumptions C04_output_preserved_program.
